@@ -483,3 +483,26 @@ fn c09_reserialization_normal_form() {
 }
 
 
+
+/// SNI with two names (list length covers both entries, each with its own 3-byte header).
+#[kani::proof]
+#[kani::unwind(8)]
+fn c09_ext_sni_two_names() {
+    let pool: [u8; 3] = kani::any();
+    let (t1, t2): (u8, u8) = (kani::any(), kani::any());
+    let mut v = Vec::with_capacity(2);
+    v.push((tp::SNIType(t1), &pool[..1]));
+    v.push((tp::SNIType(t2), &pool[1..3]));
+    let ext = ManuallyDrop::new(X::SNI(v));
+    let out = ManuallyDrop::new(gen_simple(tp::gen_tls_extension(&*ext), Vec::new()));
+    let b = ok_bytes!(out, "C09.sni2");
+    // 4 (type, ext len) + 2 (list len) + (3 + 1) + (3 + 2)
+    vassert!(b.len() == 15 && be16(b, 0) == 0 && be16(b, 2) as usize == b.len() - 4, "C09.ext.u16_length_is_data_length");
+    vassert!(be16(b, 4) as usize == b.len() - 6, "C09.ext.sni_list_and_name_length_fields");
+    vassert!(b[6] == t1 && be16(b, 7) == 1 && b[10] == t2 && be16(b, 11) == 2, "C09.ext.sni_list_and_name_length_fields");
+    let a = stage!(b, 15, [0 => 0, 1 => 0, 2 => 0, 3 => 11]);
+    let r = ManuallyDrop::new(tp::parse_tls_extension(&a[..]));
+    vassert!(matches!(&*r, Ok((rem, X::SNI(p))) if rem.len() == 0 && p.len() == 2 && (p[0].0).0 == t1 && (p[1].0).0 == t2
+                      && bytes_eq(p[0].1, &pool[..1]) && bytes_eq(p[1].1, &pool[1..3])), "C09.ext.sni_round_trips");
+    vcover!(true, "C09.ext.cover.sni_two_names");
+}
